@@ -446,7 +446,7 @@ let run_printpol payload =
                 | L (A "annots" :: kvs) :: _ -> List.map (function L [A k; A v] -> (str_of_atom k, str_of_atom v) | _ -> failwith "annot") kvs
                 | _ -> [])
       | _ -> [] in
-    let items = policy_items printable_rune gext_rune set_order_idx print_ip ann pol in
+    let items = policy_items printable_rune gext_rune set_order_idx print_ip (fun _ -> false) ann pol in
     L [A "text"; A (atom_of_str (render items))]
   | _ -> failwith "printpol payload"
 
